@@ -109,6 +109,17 @@ def contracts():
     c('replace', name='strings.replace/default',
       params=dict(string=TStr, old=TStr, new=TStr),
       ensures=['result == string.replace(old, new, -1)'])
+    # replace with a dict: the pairs are applied ONE AFTER THE OTHER IN THE
+    # MAPPING'S OWN ORDER (the docstring's examples depend on it), each with
+    # the same count, keys and values through str()
+    for n in (1, 2, 3):
+        exp = 'string'
+        for i in range(n):
+            exp += '.replace(str_func(K%d), str_func(V%d), count)' % (i, i)
+        c('replace_with_dict', name='strings.replace_with_dict/%d' % n,
+          params=dict(string=TStr, str_func=_strf(), replacements=_dictn(n),
+                      count=TInt),
+          ensures=['result == ' + exp], native=False)
     c('in_', params=dict(left=TStr, right=TStr),
       ensures=['result == (left in right)'], serves=('C19', 'C15'))
     for nm, op in (('gt', '>'), ('lt', '<'), ('gte', '>='), ('lte', '<=')):
@@ -163,3 +174,33 @@ class tuple_of:
             path.symbols['%s[%d]' % (name, i)] = v.t
             out.append(v)
         return tuple(out)
+
+
+class _strf:
+    """The injected `str` delegate: an uninterpreted function Str -> Str."""
+    is_factory = True
+
+    def __call__(self, name, path):
+        import z3
+        from vlib.pyvc.interp import Model
+        from vlib.pyvc.sym import SStr
+        f = z3.Function('delegate.str', z3.StringSort(), z3.StringSort())
+        return Model(name, lambda x: SStr(f(TStr.unwrap(x))))
+
+
+class _dictn:
+    """A mapping with n string entries in a fixed iteration order; ghost
+    names K0, V0, K1, V1 ..."""
+    is_factory = True
+
+    def __init__(self, n):
+        self.n = n
+
+    def __call__(self, name, path):
+        d = {}
+        for i in range(self.n):
+            k, v = TStr.fresh('K%d' % i), TStr.fresh('V%d' % i)
+            path.ghost['K%d' % i], path.ghost['V%d' % i] = k, v
+            path.symbols['K%d' % i], path.symbols['V%d' % i] = k.t, v.t
+            d[k] = v
+        return d
